@@ -284,6 +284,41 @@ class Verdict:
         return 1 if seen else 0
 
 
+def trace_complete(path):
+    """A driver ends every execution with an `end` event, or with a `crash` event written by its signal handler.  A trace that ends
+    otherwise belongs to a driver that was killed (it hung until the time limit) -- its buffered events are lost, so nothing in it
+    may count as validated."""
+    try:
+        with open(path, "rb") as f:
+            f.seek(0, 2)
+            n = f.tell()
+            f.seek(max(0, n - 4096))
+            tail = f.read().decode("utf-8", "replace").strip().split("\n")
+    except OSError:
+        return False
+    last = tail[-1] if tail else ""
+    return '"e":"end"' in last or '"e":"crash"' in last
+
+
+def check_complete(V, prop, results, traces, path_of=lambda t: t[0], what=lambda t: ""):
+    """results: [(rc, out)] of the driver processes, traces: parallel list.  A driver that ran into the time limit or left an
+    incomplete trace is reported as a violation (NoHang): on the unchanged tree no driver comes anywhere near its limit."""
+    bad = 0
+    for (rc, o), t in zip(results, traces):
+        pth = path_of(t)
+        if rc == 124 or (os.path.exists(pth) and not trace_complete(pth)):
+            keep = os.path.join(keepdir(prop), os.path.basename(pth))
+            try:
+                shutil.copyfile(pth, keep)
+            except OSError:
+                keep = pth
+            V.violation("NoHang:%s" % what(t), keep, "the driver did not finish (exit status %s): an API call never returned, or the process was killed" % rc)
+            with open(pth, "a") as f:      # make the remains of the trace well-formed for the validation pass
+                f.write('\n{"e":"crash","sig":9,"incall":1}\n')
+            bad += 1
+    return bad
+
+
 def sample_lines(path, n=3, maxlen=400):
     out = []
     try:
